@@ -63,6 +63,28 @@ def run(rep):
                 extra = tuple(rng.randrange(65536) for _ in range(3))
             tok = pg.img_token(256, 256, ct, 16, il, extra, data)
             cs.add(f"reduce scale16 {tok}", tok=tok, ct=ct)
+    # (b2) images in which EVERY sample shares a byte pattern (a whole-image shortcut must still round each sample):
+    #      low byte 0x00 everywhere (8-bit data widened by zero fill), low byte 0xff, low = high (bit replication), low = high +- 1,
+    #      high byte constant; with keys of the same and of another pattern
+    pats = {"low00": lambda hi, r: hi << 8, "lowff": lambda hi, r: (hi << 8) | 0xff, "rep": lambda hi, r: hi * 257,
+            "rep+1": lambda hi, r: (hi << 8) | ((hi + 1) & 0xff), "rep-1": lambda hi, r: (hi << 8) | ((hi - 1) & 0xff),
+            "hi80": lambda hi, r: 0x8000 | hi, "low80": lambda hi, r: (hi << 8) | 0x80, "low7f": lambda hi, r: (hi << 8) | 0x7f}
+    for ct in (0, 2, 4, 6):
+        ch = pg.CHANNELS[ct]
+        for name, f in pats.items():
+            for il in ((False,) if quick else (False, True)):
+                w, h = 16, 16
+                px = [[tuple(f((y * 16 + x + 37 * c) % 256, rng) for c in range(ch)) for x in range(w)] for y in range(h)]
+                data = pg.pack_image(px, w, h, ct, 16, il)
+                keys = [None]
+                if ct == 0:
+                    keys = [None, f(0x81, rng), f(0xfe, rng), 0x81fe]
+                if ct == 2:
+                    keys = [None, tuple(f(v, rng) for v in (0x81, 0x90, 0xff)), (0x81fe, 0x0100, 0xff00)]
+                for key in keys:
+                    tok = pg.img_token(w, h, ct, 16, il, key, data)
+                    cs.add(f"reduce scale16 {tok}", tok=tok, ct=ct)
+                    rep.count("pattern:" + name)
     ri = vlib.run_cases(impl, cs.lines)
     rm = vlib.run_cases(model, cs.lines)
     rep.evaluations += len(cs.lines)
@@ -80,7 +102,7 @@ def run(rep):
     for oid, m in orc.meta.items():
         if ro.get(oid) != "eq":
             src = cs.meta[m["src"]]
-            rep.violation(f"C15:allvalues:ct{src['ct']}", "scaling a 16-bit image containing all 65536 values in every channel position did not round every sample (or the key) to nearest",
+            rep.violation(f"C15:allvalues:ct{src['ct']}", "scaling a 16-bit image (all 65536 values in every channel position, or a uniform byte pattern) did not round every sample (or the key) to nearest",
                           {"cases": [vlib.short(src["cmd"], 400)], "relation": ro.get(oid)})
     # (c) structured images
     redcheck.run_reductions(rep, redcheck.SCALE, 250 if quick else 3000, "scale16", "C15")
